@@ -1,6 +1,6 @@
 (* Shared header: arithmetic automation and small list utilities.
    No axioms, stdlib only. *)
-From Coq Require Export ZArith List Bool Lia ZifyBool Sorted Permutation.
+From Coq Require Export ZArith List Bool Lia ZifyBool ZifyNat Sorted Permutation.
 Export ListNotations.
 Ltac Zify.zify_post_hook ::= Z.to_euclidean_division_equations.
 
